@@ -33,6 +33,9 @@ _add("C08", *_REACH, "Pfdl.Props.C08.accept_iff", "Pfdl.Props.C08.accept_iff_par
 # C09 at the net layer: no look-up error (IndexError / KeyError / ValueError branches of the code-level model unreachable)
 _add("C09", "Pfdl.Net.C09.no_lookup_error_partial", "Pfdl.Net.C09.accepted_no_lookup_error_partial",
      "Pfdl.Net.C09.construction_raises_nothing", "Pfdl.Net.generate_ginv", "Pfdl.Net.gkeeps", "Pfdl.Net.skeeps")
+# C14 / C08 at the net layer, for every program: the awaited completions are pairwise different
+_add("C14", "Pfdl.Net.C14.awaited_completions_distinct", "Pfdl.Net.C14.delivered_not_awaited", "Pfdl.Net.ikeeps")
+_add("C08", "Pfdl.Net.C14.delivered_not_awaited", "Pfdl.Net.C14.awaited_completions_distinct")
 # C08 at the net layer (fire_event as the code does it, also when it is called re-entrantly)
 _add("C08", "Pfdl.Net.C08.refused_no_effect", "Pfdl.Net.C08.fire_refused", "Pfdl.Net.C08.start_again_no_effect",
      "Pfdl.Net.C08.erased_before_delivery")
